@@ -532,11 +532,12 @@ fn reopen_one<A: Allocator>(dir: &str, tag: &str, fl: Freelist, reserved: u32, b
     }
   }
   // copy-on-write and writable, with the same / a larger / no capacity
-  for (mode, capo) in [("map_copy", Some(cap)), ("map_mut", Some(cap)), ("map_mut", None), ("map_mut", Some(2 * cap))] {
-    let o = Options::new().with_reserved(reserved).with_freelist(fl).with_magic_version(7).with_read(true).with_write(true);
+  for (mode, capo, create) in [("map_copy", Some(cap), false), ("map_mut", Some(cap), false), ("map_mut", None, false), ("map_mut", Some(2 * cap), false),
+                               ("map_mut", Some(cap), true), ("map_mut", Some(2 * cap), true), ("map_copy", Some(2 * cap), true), ("map_mut", None, true)] {
+    let o = Options::new().with_reserved(reserved).with_freelist(fl).with_magic_version(7).with_read(true).with_write(true).with_create(create);
     let o = if let Some(c) = capo { o.with_capacity(c) } else { o };
     let r = unsafe { if mode == "map_copy" { o.map_copy::<A, _>(&p) } else { o.map_mut::<A, _>(&p) } };
-    let label = format!("{mode} capacity={capo:?}");
+    let label = format!("{mode} capacity={capo:?} create={create}");
     match r {
       Ok(a) => {
         check_common(&a, &label, 3, bad);
